@@ -276,7 +276,7 @@ theorem CacheLayer.rsp_go_sel_pod (np : NetPol) (rest : List NPPeer) (p : Pod) (
     (podSel nsSel : Option Selector) (h : NPPeer.sel podSel nsSel ≠ .sel none none) :
     NetPol.ruleSelectsPeer.go np (.pod p nso) (.sel podSel nsSel :: rest) =
       if !(match nsSel with
-          | none => np.ns == p.ns
+          | none => NetPol.nsMatchNil np p
           | some s => NetPol.selectorsMatch s p.reprNsSel ((nso.map (·.labels)).getD []) p.isRepresentative)
       then NetPol.ruleSelectsPeer.go np (.pod p nso) rest
       else if (match podSel with
@@ -300,6 +300,7 @@ theorem CacheLayer.ruleSelectsPeer_congr (h : PodSim p p') (np : NetPol) (peers 
         all_goals
           rw [rsp_go_sel_pod _ _ _ _ _ _ (by simp), rsp_go_sel_pod _ _ _ _ _ _ (by simp)]
           simp only [ih, h.ns, h.labels, h.real, h.real', NetPol.selectorsMatch,
+            NetPol.nsMatchNil_real np p h.real, NetPol.nsMatchNil_real np p' h.real',
             Bool.false_eq_true, if_false]
   simp only [NetPol.ruleSelectsPeer, hgo]
 
